@@ -91,7 +91,7 @@ def _run_once(cmd, text, timeout, env=None):
         return -999, out, time.time() - t0, True
 
 
-def run_impl(reqs, profile="debug", timeout=300, stack=None, flush=False):
+def run_impl(reqs, profile="debug", timeout=300, stack=None, flush=False, max_aborts=25):
     """Run request lines against the real crate. A process abort (stack overflow, SIGSEGV) or a
     timeout is attributed to the request being processed (found in --flush mode); the remaining
     requests continue in a new process (state is lost, which only matters for stateful streams)."""
@@ -136,7 +136,7 @@ def run_impl(reqs, profile="debug", timeout=300, stack=None, flush=False):
         out_lines.append("HANG" if timed_out else "ABORT")
         todo = todo[k + 1:]
         aborts += 1
-        if aborts > 25:
+        if aborts >= max_aborts:
             out_lines.extend(["SKIPPED"] * len(todo))
             break
     return out_lines
